@@ -331,6 +331,10 @@ func Run[C any](t *testing.T, p Prop[C]) {
 				}
 			}
 		}
+		if o.inconclusive != "" && f == nil {
+			p := writeReplay(p.ID, p.Name, raw, &Failure{Key: "inconclusive", Msg: o.inconclusive})
+			_ = os.Rename(p, strings.TrimSuffix(p, ".json")+".inconclusive.json")
+		}
 		if f != nil {
 			st.Failures = append(st.Failures, f.Key)
 			if os.Getenv("VERIF_SURVEY") != "" {
